@@ -240,18 +240,27 @@ def procOK : List Piece → Bool
   | [] => true
   | p :: rest => !(p.isField && startsEscClose rest) && procOK rest
 
-def startsText : List Piece → Bool
-  | .text _ :: _ => true
-  | _ => false
+/-- `detOK afterPos ps`: the detection loops provably stay in step with the pieces. `afterPos = true` means the
+    previous piece was a positional placeholder read in step, so the next *character* is skipped by the trailing
+    `++pos`: harmless if it is a literal character or the `{` of another positional placeholder (the rest of which is
+    then read as plain text), not harmless if it belongs to a named placeholder, to `{{` or to `}}`. Once a named
+    placeholder is reached in step the flag is set and nothing later can clear it. -/
+def detOK : Bool → List Piece → Bool
+  | _, [] => true
+  | false, p :: rest =>
+    match p with
+    | .field n _ => n != [] || detOK true rest
+    | _ => detOK false rest
+  | true, p :: rest =>
+    match p with
+    | .text _ => detOK false rest
+    | .field n _ => n == [] && detOK false rest
+    | _ => false
 
 /-- class on which `containsNamedArgs` is right: up to the first named placeholder, every positional placeholder
-    is followed by a literal character (or ends the template) -/
-def detectOK : List Piece → Bool
-  | [] => true
-  | p :: rest =>
-    match p with
-    | .field n _ => n != [] || rest.isEmpty || (startsText rest && detectOK rest)
-    | _ => detectOK rest
+    ends the template, or is followed by a literal character, or is followed by another positional placeholder.
+    Excluded: a positional placeholder directly followed by a named one, by `{{` or by `}}`. -/
+def detectOK (ps : List Piece) : Bool := detOK false ps
 
 /-! ## fmt's top level, as far as the property needs it -/
 
